@@ -76,19 +76,28 @@ void bn_gcd_basic(bn_t c, const bn_t a, const bn_t b) {
 
 void bn_gcd_ext_basic(bn_t c, bn_t d, bn_t e, const bn_t a, const bn_t b) {
 	bn_t u, v, x_1, y_1, q, r;
+	int sa = bn_sign(a), sb = bn_sign(b);
 
 	if (bn_is_zero(a)) {
+		int sb = bn_sign(b);
 		bn_abs(c, b);
 		bn_zero(d);
 		if (e != NULL) {
 			bn_set_dig(e, 1);
+			if (sb == RLC_NEG) {
+				bn_neg(e, e);
+			}
 		}
 		return;
 	}
 
 	if (bn_is_zero(b)) {
+		int sa = bn_sign(a);
 		bn_abs(c, a);
 		bn_set_dig(d, 1);
+		if (sa == RLC_NEG) {
+			bn_neg(d, d);
+		}
 		if (e != NULL) {
 			bn_zero(e);
 		}
@@ -139,6 +148,13 @@ void bn_gcd_ext_basic(bn_t c, bn_t d, bn_t e, const bn_t a, const bn_t b) {
 			}
 		}
 		bn_copy(c, u);
+		/* The cofactors were computed for |a| and |b|. */
+		if (sa == RLC_NEG) {
+			bn_neg(d, d);
+		}
+		if (e != NULL && sb == RLC_NEG) {
+			bn_neg(e, e);
+		}
 	}
 	RLC_CATCH_ANY {
 		RLC_THROW(ERR_CAUGHT);
@@ -357,20 +373,28 @@ void bn_gcd_ext_lehme(bn_t c, bn_t d, bn_t e, const bn_t a, const bn_t b) {
 	bn_t x, y, u, v, t0, t1, t2, t3, t4;
 	dig_t _x, _y, q, _q, t, _t;
 	dis_t _a, _b, _c, _d;
-	int swap;
+	int swap, sa = bn_sign(a), sb = bn_sign(b);
 
 	if (bn_is_zero(a)) {
+		int sb = bn_sign(b);
 		bn_abs(c, b);
 		bn_zero(d);
 		if (e != NULL) {
 			bn_set_dig(e, 1);
+			if (sb == RLC_NEG) {
+				bn_neg(e, e);
+			}
 		}
 		return;
 	}
 
 	if (bn_is_zero(b)) {
+		int sa = bn_sign(a);
 		bn_abs(c, a);
 		bn_set_dig(d, 1);
+		if (sa == RLC_NEG) {
+			bn_neg(d, d);
+		}
 		if (e != NULL) {
 			bn_zero(e);
 		}
@@ -581,20 +605,29 @@ void bn_gcd_ext_lehme(bn_t c, bn_t d, bn_t e, const bn_t a, const bn_t b) {
 			}
 		}
 		bn_gcd_ext_dig(c, u, v, x, y->dp[0]);
+		/* Finish the computation with |a| and |b|, then fix the signs. */
+		bn_abs(t2, a);
+		bn_abs(t3, b);
 		if (!swap) {
 			bn_mul(t0, t4, u);
 			bn_mul(t1, d, v);
 			bn_add(t4, t0, t1);
-			bn_mul(x, b, t4);
+			bn_mul(x, t3, t4);
 			bn_sub(x, c, x);
-			bn_div(d, x, a);
+			bn_div(d, x, t2);
 		} else {
 			bn_mul(t0, t4, u);
 			bn_mul(t1, d, v);
 			bn_add(d, t0, t1);
-			bn_mul(x, a, d);
+			bn_mul(x, t2, d);
 			bn_sub(x, c, x);
-			bn_div(t4, x, b);
+			bn_div(t4, x, t3);
+		}
+		if (sa == RLC_NEG) {
+			bn_neg(d, d);
+		}
+		if (sb == RLC_NEG) {
+			bn_neg(t4, t4);
 		}
 		if (e != NULL) {
 			bn_copy(e, t4);
@@ -682,20 +715,28 @@ void bn_gcd_binar(bn_t c, const bn_t a, const bn_t b) {
 
 void bn_gcd_ext_binar(bn_t c, bn_t d, bn_t e, const bn_t a, const bn_t b) {
 	bn_t x, y, t, u, v, _a, _b, _e;
-	int shift;
+	int shift, sa = bn_sign(a), sb = bn_sign(b);
 
 	if (bn_is_zero(a)) {
+		int sb = bn_sign(b);
 		bn_abs(c, b);
 		bn_zero(d);
 		if (e != NULL) {
 			bn_set_dig(e, 1);
+			if (sb == RLC_NEG) {
+				bn_neg(e, e);
+			}
 		}
 		return;
 	}
 
 	if (bn_is_zero(b)) {
+		int sa = bn_sign(a);
 		bn_abs(c, a);
 		bn_set_dig(d, 1);
+		if (sa == RLC_NEG) {
+			bn_neg(d, d);
+		}
 		if (e != NULL) {
 			bn_zero(e);
 		}
@@ -795,22 +836,23 @@ void bn_gcd_ext_binar(bn_t c, bn_t d, bn_t e, const bn_t a, const bn_t b) {
 		/* Now fix reciprocals. */
 		bn_div(x, x, u);
 		bn_div(y, y, u);
-		bn_hlv(_a, x);
+		/* Reduce d modulo y = |b|/gcd into (-y/2, y/2], keeping x * d + y * e. */
+		bn_div(t, d, y);
+		bn_mul(u, y, t);
+		bn_mul(v, x, t);
+		bn_sub(d, d, u);
+		bn_add(_e, _e, v);
 		bn_hlv(_b, y);
-		while (bn_cmp_abs(d, _b) == RLC_GT || bn_cmp_abs(_e, _a) == RLC_GT) {
-			bn_div(t, d, _b);
-			if (bn_bits(t) > 1) {
-				bn_hlv(t, t);
-			}
-			bn_mul(v, x, t);
-			bn_mul(u, y, t);
-			if (bn_sign(d) != bn_sign(u)) {
-				bn_add(d, d, u);
-				bn_sub(_e, _e, v);
-			} else {
-				bn_sub(d, d, u);
-				bn_add(_e, _e, v);
-			}
+		if (bn_cmp(d, _b) == RLC_GT) {
+			bn_sub(d, d, y);
+			bn_add(_e, _e, x);
+		}
+		/* The cofactors were computed for |a| and |b|. */
+		if (sa == RLC_NEG) {
+			bn_neg(d, d);
+		}
+		if (sb == RLC_NEG) {
+			bn_neg(_e, _e);
 		}
 		if (e != NULL) {
 			bn_copy(e, _e);
@@ -973,6 +1015,7 @@ void bn_gcd_dig(bn_t c, const bn_t a, dig_t b) {
 void bn_gcd_ext_dig(bn_t c, bn_t d, bn_t e, const bn_t a, const dig_t b) {
 	bn_t u, v, x1, y1, q, r;
 	dig_t _v, _q, _t, _u;
+	int sa = bn_sign(a);
 
 	if (d == NULL && e == NULL) {
 		bn_gcd_dig(c, a, b);
@@ -991,6 +1034,9 @@ void bn_gcd_ext_dig(bn_t c, bn_t d, bn_t e, const bn_t a, const dig_t b) {
 	if (b == 0) {
 		bn_abs(c, a);
 		bn_set_dig(d, 1);
+		if (sa == RLC_NEG) {
+			bn_neg(d, d);
+		}
 		if (e != NULL) {
 			bn_zero(e);
 		}
@@ -1062,6 +1108,9 @@ void bn_gcd_ext_dig(bn_t c, bn_t d, bn_t e, const bn_t a, const dig_t b) {
 			}
 		}
 		bn_set_dig(c, _u);
+		if (sa == RLC_NEG) {
+			bn_neg(d, d);
+		}
 	}
 	RLC_CATCH_ANY {
 		RLC_THROW(ERR_CAUGHT);
